@@ -127,6 +127,15 @@ def execute(world, init, consumes):
     VERSION.clear()
     for c in init.get('edited', ()):      # the code of these categories changed since the recordings were made
         VERSION[c] = 1
+    probe_order = None
+    if init['mode'] == 'explicit':
+        # "a deterministic order": the order in which categories are reported is a function of the selected recordings,
+        # not of the order in which their ids were listed (probe: the same ids listed backwards; nothing is consumed)
+        try:
+            probe = PlaybackStudio(cats, world.tuner, world.tr, recording_ids=[world.ids[r] for r in reversed(init['order'])])
+            probe_order = list(probe.play())
+        except Exception:  # noqa  (reported below, by the run proper)
+            probe_order = None
     del world.log[:]
     if init['mode'] == 'explicit':
         rec_ids = [world.ids[r] for r in init['order']]
@@ -142,8 +151,9 @@ def execute(world, init, consumes):
     expect_cats = set(cats) if init['mode'] != 'explicit' else set(CATOF[r - 1] for r in init['order'])
     if set(result) != expect_cats:
         bad.append('categories reported %s, expected %s' % (sorted(result), sorted(expect_cats)))
-    if init['mode'] == 'explicit' and list(result) != sorted(result):
-        bad.append('categories are not reported in sorted order: %s' % list(result))
+    if init['mode'] == 'explicit' and probe_order is not None and list(result) != probe_order:
+        bad.append('categories are reported in an order that depends on the order of the id list: %s for ids %s, %s for '
+                   'the same ids listed backwards' % (list(result), init['order'], probe_order))
     for c in expect_cats & set(result):
         if c in init['failing']:
             if not isinstance(result[c], Exception):
